@@ -1,0 +1,25 @@
+//! Verification hook (H3): scheduling points for an out-of-tree deterministic scheduler.
+//! Only compiled with the cargo feature `verif`; a point does nothing unless the calling
+//! thread has registered a hook.
+use std::cell::RefCell;
+
+type Hook = Box<dyn Fn(&'static str)>;
+
+thread_local! {
+    static HOOK: RefCell<Option<Hook>> = RefCell::new(None);
+}
+
+pub fn set_thread_hook(hook: Option<Hook>) {
+    HOOK.with(|h| *h.borrow_mut() = hook);
+}
+
+#[inline]
+pub fn point(name: &'static str) {
+    HOOK.with(|h| {
+        if let Ok(guard) = h.try_borrow() {
+            if let Some(f) = guard.as_ref() {
+                f(name)
+            }
+        }
+    });
+}
